@@ -102,7 +102,7 @@ func C05(c *run.Ctx) {
 
 func c05Run(c *run.Ctx, ci int, k c05Case) {
 	registered, _ := c05Scopes(k.Strategy)
-	w := world.New(world.Opts{JWTAccess: k.JWT, Mode: world.Mode{DB: (ci/2)%3 == 1}, Cfg: func(cfg *fosite.Config) {
+	w := world.New(world.Opts{JWTAccess: k.JWT, Mode: world.Mode{DB: (ci/2)%3 == 1, Hydrate: (ci/6)%2 == 1}, Cfg: func(cfg *fosite.Config) {
 		switch k.Strategy {
 		case "exact":
 			cfg.ScopeStrategy = fosite.ExactScopeStrategy
